@@ -156,6 +156,10 @@ components:
         propertyName: kind
         mapping:
           kitty: '#/components/schemas/Cat'
+          KITTY: '#/components/schemas/Cat'
+          Kitty: '#/components/schemas/Cat'
+          PUP: '#/components/schemas/Dog'
+          Pup: '#/components/schemas/Dog'
           c1: '#/components/schemas/Cat'
           c3: '#/components/schemas/Cat'
           c2: '#/components/schemas/Cat'
